@@ -204,6 +204,14 @@ theorem sched_reject_only_if_partial (maxQ last : Int) (ws : List (Int × Req)) 
   rw [hm] at h
   exact h
 
+/-- **No banked burst under schedules outside the classified regions**: the admissions of a round span at least the sum
+    of their intervals after the previous pass time, however long the timestamp had been idle. -/
+theorem sched_no_banked_burst_partial (maxQ last : Int) (ws : List (Int × Req)) (s : List Nat)
+    (hrb : ((Cfg.start maxQ last ws).runSched s).rb = false)
+    (hst : ((Cfg.start maxQ last ws).runSched s).stale = false) :
+    last + (((Cfg.start maxQ last ws).runSched s).log.map (·.2)).sum ≤ ((Cfg.start maxQ last ws).runSched s).last := by
+  exact span_of_final last ((Cfg.start maxQ last ws).runSched s) (sched_spacing_partial maxQ last ws s hrb hst)
+
 /-- every admitted caller that consumes capacity (interval ≠ 0) is recorded in the admission log -/
 theorem sched_logged (maxQ last : Int) (ws : List (Int × Req)) (s : List Nat) :
     ∀ t ∈ ((Cfg.start maxQ last ws).runSched s).ths, ∀ e, t.passOf = some e →
